@@ -43,3 +43,28 @@ Theorem c16_sada_direction_factor_partial : forall rs : Q -> Q, rs_spec rs ->
   forall delta s, 0 < delta -> 0 <= s -> rs (delta + s) * rs (delta + s) * (delta + s) == 1.
 Proof. exact sada_direction_factor. Qed.
 Print Assumptions c16_sada_direction_factor_partial.
+
+(* Matrix level: with Pi the projector onto the sketch's row space, Qc = I - Pi, Dm the sketch
+   (= exact covariance when lossless, c16_sada_sketch_exact_lossless), Fm the sketch-space inverse
+   root, S-AdaGrad's preconditioner X = Fm + rsqrt(delta) Qc satisfies X X (delta I + Dm) = I in every
+   (non-commutative) matrix algebra: it IS full-matrix AdaGrad's (delta I + C)^(-1/2). *)
+Theorem c16_sada_lossless_is_full_adagrad :
+  forall (M : Type) (mul add : M -> M -> M) (one zero : M) (sm : Q -> M -> M),
+  (forall a b c, mul a (mul b c) = mul (mul a b) c) ->
+  (forall a b c, mul a (add b c) = add (mul a b) (mul a c)) ->
+  (forall a b c, mul (add a b) c = add (mul a c) (mul b c)) ->
+  (forall a, mul zero a = zero) -> (forall a, mul a zero = zero) ->
+  (forall a, add zero a = a) -> (forall a, add a zero = a) ->
+  (forall a b c, add a (add b c) = add (add a b) c) -> (forall a b, add a b = add b a) ->
+  (forall a, mul one a = a) ->
+  (forall q a b, mul (sm q a) b = sm q (mul a b)) -> (forall q a b, mul a (sm q b) = sm q (mul a b)) ->
+  (forall q a b, sm q (add a b) = add (sm q a) (sm q b)) ->
+  (forall p q a, sm p (sm q a) = sm (p * q) a) -> (forall p q a, p == q -> sm p a = sm q a) ->
+  (forall a, sm 1 a = a) -> (forall q, sm q zero = zero) ->
+  forall (Pi Qc Dm Fm : M) (delta a : Q),
+  add Pi Qc = one -> mul Pi Qc = zero -> mul Qc Pi = zero ->
+  mul Fm Pi = Fm -> mul Pi Fm = Fm -> mul Pi Dm = Dm ->
+  mul (mul Fm Fm) (add (sm delta Pi) Dm) = Pi -> a * a * delta == 1 ->
+  mul (mul (Xs M add sm Qc Fm a) (Xs M add sm Qc Fm a)) (As M add one sm Dm delta) = one.
+Proof. exact sada_lossless_is_full_adagrad. Qed.
+Print Assumptions c16_sada_lossless_is_full_adagrad.
